@@ -5,7 +5,11 @@ package main
 // arbitrary size, REPL sessions over a pool of lines. Observations are the process's stdout,
 // stderr and exit status; natively the same scenarios are replayed through the built binary.
 
-import "strings"
+import (
+	"strings"
+
+	"golang.org/x/text/unicode/norm"
+)
 
 // script names over a small alphabet that contains every character the extension rule cares about
 func nameRune() rune {
@@ -166,7 +170,8 @@ func VH_input(nlines int, finalNL int) {
 	verifRunMain()
 	out, errText, status := verifProcStdout(), verifProcStderr(), verifProcExit()
 	if nlines >= 2 {
-		want := strings.TrimSpace(verifStdinLine(0)) + "\n" + "p> " + strings.TrimSpace(verifStdinLine(1)) + "\n"
+		// the program prints what it read: print writes the NFC form of the text
+		want := norm.NFC.String(strings.TrimSpace(verifStdinLine(0))) + "\n" + "p> " + norm.NFC.String(strings.TrimSpace(verifStdinLine(1))) + "\n"
 		verifAssert("each-read-consumes-exactly-the-next-line", out == want)
 		verifAssert("reads-succeed", status == 0 && errText == "")
 	} else {
